@@ -1,7 +1,7 @@
 (* Property C16 - only statements, each closed by [exact]. *)
 From Coq Require Import NArith List Bool.
 Import ListNotations.
-Require Import UV.Gen.Consts UV.C16.Model UV.C16.Proofs UV.C16.Frame UV.C16.Dirs.
+Require Import UV.Gen.Consts UV.C16.Model UV.C16.Proofs UV.C16.Frame UV.C16.Dirs UV.C16.Files.
 Local Open Scope N_scope.
 
 (* read_all: for EVERY segmentation of the stream (chunks of any size, EINTRs in between) a request of
@@ -174,3 +174,31 @@ Theorem C16_reset_then_descriptor_reuse : forall k d1 body1 junk d2 body2 t1 t2 
     fs s' d1 = Some (local_dir body1) /\ fs s' d2 = Some (local_dir body2) /\ clients s' = clients s.
 Proof. exact reset_then_reuse. Qed.
 Print Assumptions C16_reset_then_descriptor_reuse.
+
+(* the metadata `record --host` sends is a function of the recorder's directory (cmds/record.c: send_task_file,
+   send_map_files, send_sym_files, send_dbg_files, send_info_file scan the directory): every file of a kind
+   task.txt / sid-*.map / *.sym / *.dbg / info is sent exactly once and whole. *)
+Theorem C16_metadata_sent_exactly_once : forall f L, NoDup (map fst L) -> sent_name f = true ->
+  written f (meta_msgs L) = match flookup f L with Some c => [c] | None => [] end.
+Proof. exact written_meta. Qed.
+Print Assumptions C16_metadata_sent_exactly_once.
+
+(* SAME FILE SET: after  MDir d; trace data; metadata of the local directory L; MEnd  the receiver's directory
+   d has, for EVERY file name, exactly the local directory's file - the file of L if there is one (symbol, debug,
+   map, task, info: whatever the options of the run produced), otherwise what the trace data made.  Nothing is
+   lost, duplicated or invented. *)
+Theorem C16_same_file_set : forall k d L data s,
+  NoDup (map fst L) -> (forall e, In e L -> sent_name (fst e) = true) -> forallb is_data data = true ->
+  create_directory d (fs s) d = Some fresh_dir ->
+  exists s' R, run (map (pair k) (MDir d :: (data ++ meta_msgs L) ++ [MEnd])) s = Some s' /\ fs s' d = Some R /\
+    forall f, flookup f R = match flookup f L with Some c => Some c | None => flookup f (local_dir data) end.
+Proof. exact same_file_set. Qed.
+Print Assumptions C16_same_file_set.
+
+Theorem C16_same_file_set_nonvacuous :
+  NoDup (map fst L_ex) /\ forallb (fun e => sent_name (fst e)) L_ex = true /\
+  map target (meta_msgs L_ex) =
+    [Some (n_task, [9]); Some (str_sid_map, [8]); Some (str_libc_sym, [5]); Some (str_p_sym, [7]);
+     Some (str_libc_dbg, [4]); Some (str_p_dbg, [6]); Some (n_info, [1; 2; 3])].
+Proof. exact same_file_set_ex. Qed.
+Print Assumptions C16_same_file_set_nonvacuous.
